@@ -609,7 +609,10 @@ func PreprocessDeclarationsPrelude(baseURL string, declarations []pa.Compound, p
 			contents, err := PreprocessDeclarationsPrelude(baseURL, pa.ParseBlocksContents(declaration.Content, false),
 				declarationPrelude)
 			if err != nil {
-				return nil, err
+				// an invalid selector only invalidates the nested rule it belongs to,
+				// not the rule (and the other nested rules) around it
+				logger.WarningLogger.Printf("Invalid or unsupported selector '%s', %s \n", pa.Serialize(declaration.Prelude), err)
+				continue
 			}
 			if len(ownDecls) > 0 {
 				// declarations written before this nested rule come before it in the cascade
